@@ -1,4 +1,5 @@
 import SqlgrepModel.Lemmas.ParseClauses
+import SqlgrepModel.Lemmas.ParsePrefixClauses
 import SqlgrepModel.Lemmas.LowerNames
 /-
 C20 — parser-level section (owner: builder `pstmt`; the lexical half — letter case of keywords, whitespace,
@@ -10,11 +11,12 @@ Clauses of the property sentence treated here, over the model the `pstmt` / `stm
   * the relative order of the JOIN / WHERE / GROUP BY / HAVING / LIMIT clauses,
   * letter case of function, aggregate and type names (and of the modifier / mode words that are identifiers).
 
-What is proved outright and what is `…_partial` is said at each theorem. The common missing piece is *prefix
-determinism* of the expression parser (the result of `parseExpr` on `e ++ tail` does not depend on `tail` beyond its
-first token being a token that ends every expression): it is the hypothesis `IsClause` below, proved here for LIMIT
-and JOIN clauses and for one-identifier WHERE / HAVING / GROUP BY clauses; for arbitrary expressions it is exercised
-by the clause-permutation cases of `harness/src/c14.rs` (model = implementation on every permutation) but not proved.
+What is proved outright and what is `…_partial` is said at each theorem. The common piece is *prefix determinism* of
+the expression parser (`Lemmas/ParsePrefix.lean`, builder `pexpr`): the six mutually recursive functions never look
+past the first boundary token (clause keyword, `;`, `End`) of their input and treat all boundary tokens alike. With it
+every WHERE / HAVING / GROUP BY segment whose expression is read in front of *one* boundary token is a clause
+(`IsClause`: consumed exactly, whatever follows, at any locations), so clause order and the trailing `;` are theorems
+about arbitrary expressions. What remains `_partial` is said at `trailing_semicolon_statement_partial`.
 -/
 namespace Sqlgrep.Props.C20Parse
 open Sqlgrep Sqlgrep.Parse Sqlgrep.Lower
@@ -27,15 +29,28 @@ theorem clause_slots_order_irrelevant {vs ws : List ClauseVal} (hp : vs.Perm ws)
     (hd : vs.Pairwise (fun a b => a.kind ≠ b.kind)) (c : Clauses) : putAll vs c = putAll ws c :=
   putAll_perm hp hd c
 
-/-- **Clause order does not matter** — `clause_order_invariance_partial`: if every segment is a clause (`IsClause`:
-one turn of the loop consumes exactly the segment and stores its value, whatever clause, `;` or `End` follows — the
-property sentence's "each clause parser consumes exactly its clause"), then the runs of the clause loop over two
-orders of the same clauses both succeed, consume everything up to `End`, and return the same slots up to token
-locations (permuting clauses moves every token, so locations cannot agree).
+/-- **Prefix determinism of the expression parser**: with `swapB t2 s` = the state `s` whose tail from its first
+boundary token on is replaced by the tokens of `t2` (another boundary token and anything behind it), the expression
+parser answers on `swapB t2 s` what it answers on `s`, with the state it leaves transformed in the same way — for every
+answer (tree, error, out of fuel) and every fuel. The same holds for the five other functions of the mutual block. -/
+theorem expression_prefix_determinism (T : PrecTables) (hT : InertBoundary T) (t2 : PSt) (h2 : Boundary t2.cur.tok)
+    (fuel : Nat) (s : PSt) : parseExpr T fuel (swapB t2 s) = (parseExpr T fuel s).mapSt (swapB t2) :=
+  parseExpr_swapB hT h2 fuel s
 
-Full statement (not proved): `IsClause` holds for every segment `kw ++ tokens(e)` where `e` is an expression — i.e.
-prefix determinism of `parseExpr`. Proved instances: `limit_is_a_clause`, `join_is_a_clause`, `where_ident_is_a_clause` below. -/
-theorem clause_order_invariance_partial (T : PrecTables) (fuel0 : Nat) (final1 final2 : PSt)
+/-- … in the form the clause loop needs: if the boundary-free tokens `body` are read as `e` in front of one boundary
+tail, the same tokens at any other locations are read, in front of any other boundary tail and with any larger fuel,
+as a tree equal to `e` up to locations, and the parser stops exactly in front of that tail. -/
+theorem expression_consumes_exactly_its_tokens (T : PrecTables) (hT : InertBoundary T) (body body' : List PTok)
+    (hnb : ∀ t ∈ body, ¬ Boundary t.tok) (hbody : body'.map (·.tok) = body.map (·.tok)) (tail0 tail : PSt)
+    (hb0 : Boundary tail0.cur.tok) (hb : Boundary tail.cur.tok) (fuel0 fuel : Nat) (hf : fuel0 ≤ fuel) (e : PExpr)
+    (hrun : parseExpr T fuel0 (PSt.prepend body tail0) = .ok e tail0) :
+    ∃ e', parseExpr T fuel (PSt.prepend body' tail) = .ok e' tail ∧ e'.noLoc = e.noLoc :=
+  parseExpr_prefix hT body body' hnb hbody tail0 tail hb0 hb fuel0 fuel hf e hrun
+
+/-- **Clause order does not matter, given clauses** (proved outright relative to `IsClause`): if every segment is a
+clause, the runs of the clause loop over two orders of the same clauses both succeed, consume everything up to `End`,
+and return the same slots up to token locations (permuting clauses moves every token, so locations cannot agree). -/
+theorem clause_order_invariance_of_clauses (T : PrecTables) (fuel0 : Nat) (final1 final2 : PSt)
     (h1 : final1.cur.tok = .eof) (h2 : final2.cur.tok = .eof)
     (segs1 segs2 : List (List PTok × ClauseVal)) (hne : segs1 ≠ [])
     (hperm : (segs1.map (·.2)).Perm (segs2.map (·.2)))
@@ -45,6 +60,47 @@ theorem clause_order_invariance_partial (T : PrecTables) (fuel0 : Nat) (final1 f
     ∃ c1 c2, clauseLoop T fuel {} (PSt.prependAll (segs1.map (·.1)) final1) = .ok c1 final1 ∧
       clauseLoop T fuel {} (PSt.prependAll (segs2.map (·.1)) final2) = .ok c2 final2 ∧ c1.Same c2 :=
   clauseLoop_perm T fuel0 final1 final2 h1 h2 segs1 segs2 hne hperm hs1 hs2 hd fuel hfuel
+
+/-- **`WHERE e`, `HAVING e`, `GROUP BY e, …` are clauses, for arbitrary expressions**: a segment made of the keyword(s)
+and expression tokens `body'` is a clause as soon as the same tokens (at any locations; no clause keyword, `;` or `End`
+among them) are read by the expression parser in front of *one* boundary token. -/
+theorem where_is_a_clause (T : PrecTables) (hT : InertBoundary T) (body body' : List PTok)
+    (hnb : ∀ t ∈ body, ¬ Boundary t.tok) (hbody : body'.map (·.tok) = body.map (·.tok)) (tail0 : PSt)
+    (hb0 : Boundary tail0.cur.tok) (fuel0 : Nat) (e : PExpr)
+    (hrun : parseExpr T fuel0 (PSt.prepend body tail0) = .ok e tail0) (l : Loc) :
+    IsClause T fuel0 (⟨l, .kw .where⟩ :: body') (.filter e) :=
+  isClause_where hT body body' hnb hbody tail0 hb0 fuel0 e hrun l
+
+theorem having_is_a_clause (T : PrecTables) (hT : InertBoundary T) (body body' : List PTok)
+    (hnb : ∀ t ∈ body, ¬ Boundary t.tok) (hbody : body'.map (·.tok) = body.map (·.tok)) (tail0 : PSt)
+    (hb0 : Boundary tail0.cur.tok) (fuel0 : Nat) (e : PExpr)
+    (hrun : parseExpr T fuel0 (PSt.prepend body tail0) = .ok e tail0) (l : Loc) :
+    IsClause T fuel0 (⟨l, .kw .having⟩ :: body') (.having e) :=
+  isClause_having hT body body' hnb hbody tail0 hb0 fuel0 e hrun l
+
+theorem group_by_is_a_clause (T : PrecTables) (hT : InertBoundary T) (body body' : List PTok)
+    (hnb : ∀ t ∈ body, ¬ Boundary t.tok) (hbody : body'.map (·.tok) = body.map (·.tok)) (tail0 : PSt)
+    (hb0 : Boundary tail0.cur.tok) (fuel0 : Nat) (ks : List PExpr)
+    (hrun : groupKeys T fuel0 (PSt.prepend body tail0) = .ok ks tail0) (l1 l2 : Loc) :
+    IsClause T fuel0 (⟨l1, .kw .group⟩ :: ⟨l2, .kw .by⟩ :: body') (.groupBy ks) :=
+  isClause_groupBy hT body body' hnb hbody tail0 hb0 fuel0 ks hrun l1 l2
+
+/-- **Clause order does not matter** — `clause_order_invariance`: let the first token vector consist of clauses
+(`ClauseSeg`: `LIMIT n`, a JOIN, or `WHERE e` / `HAVING e` / `GROUP BY e, …` with *arbitrary* expressions, each
+expression being readable on its own in front of some boundary token) of pairwise different kinds, followed by `End`;
+let the second consist of the same clauses (`clauseKey`: the same token sequences with the same values, at any
+locations) in any other order. Then the clause loop reads both completely and returns the same slots up to token
+locations. No `IsClause` hypothesis is left: "each clause parser consumes exactly its clause" is now a theorem. -/
+theorem clause_order_invariance (T : PrecTables) (hT : InertBoundary T) (fuel0 : Nat) (final1 final2 : PSt)
+    (h1 : final1.cur.tok = .eof) (h2 : final2.cur.tok = .eof)
+    (segs1 segs2 : List (List PTok × ClauseVal)) (hne : segs1 ≠ [])
+    (hs1 : ∀ p ∈ segs1, ClauseSeg T fuel0 (p.1.map (·.tok)) p.2)
+    (hperm : (segs1.map clauseKey).Perm (segs2.map clauseKey))
+    (hd : segs1.Pairwise (fun a b => a.2.kind ≠ b.2.kind))
+    (fuel : Nat) (hfuel : fuel0 + segs1.length ≤ fuel) :
+    ∃ c1 c2, clauseLoop T fuel {} (PSt.prependAll (segs1.map (·.1)) final1) = .ok c1 final1 ∧
+      clauseLoop T fuel {} (PSt.prependAll (segs2.map (·.1)) final2) = .ok c2 final2 ∧ c1.Same c2 :=
+  clauseLoop_perm_tokens hT fuel0 final1 final2 h1 h2 segs1 segs2 hne hs1 hperm hd fuel hfuel
 
 /-- `LIMIT n` is a clause whatever follows (no hypothesis) -/
 theorem limit_is_a_clause (T : PrecTables) (l1 l2 : Loc) (n : Int) :
@@ -68,12 +124,31 @@ theorem where_ident_is_a_clause (T : PrecTables) (hT : InertBoundary T) (l1 l2 :
 
 /-! ### trailing semicolon -/
 
-/-- **Optional trailing semicolon, SELECT** — `trailing_semicolon_partial` (local form, proved outright): where a
-clause run ends at `End`, the same run followed by `;` `End` ends with the same slots, the `;` being consumed by
-the loop's own `;` arm. Together with `parseOp` looking for one more optional `;` this is the code's whole treatment of
-the semicolon. Full statement (not proved): `parseTokens (pre ++ [⟨l, ;⟩, ⟨l', End⟩]) = parseTokens (pre ++ [⟨l, End⟩])`
-for every `pre`; missing is, again, that the functions running over `pre` do not depend on the tokens after it. -/
-theorem trailing_semicolon_partial (T : PrecTables) (fuel : Nat) (c : Clauses) (l l' : Loc) :
+/-- **Optional trailing semicolon** — `trailing_semicolon` (clause level, arbitrary expressions): the same clauses
+followed by `End`, or by `;` `End` (token vectors at any locations), are both read completely by the clause loop and
+give the same slots up to locations; the `;` is consumed by the loop's own `;` arm. -/
+theorem trailing_semicolon (T : PrecTables) (hT : InertBoundary T) (fuel0 : Nat) (l0 l l' : Loc)
+    (segs1 segs2 : List (List PTok × ClauseVal)) (hne : segs1 ≠ [])
+    (hs1 : ∀ p ∈ segs1, ClauseSeg T fuel0 (p.1.map (·.tok)) p.2)
+    (hsame : segs1.map clauseKey = segs2.map clauseKey)
+    (hd : segs1.Pairwise (fun a b => a.2.kind ≠ b.2.kind))
+    (fuel : Nat) (hfuel : fuel0 + segs1.length + 1 ≤ fuel) :
+    ∃ c1 c2, clauseLoop T fuel {} (PSt.prependAll (segs1.map (·.1)) ⟨⟨l0, .eof⟩, []⟩) = .ok c1 ⟨⟨l0, .eof⟩, []⟩ ∧
+      clauseLoop T fuel {} (PSt.prependAll (segs2.map (·.1)) ⟨⟨l, .semi⟩, [⟨l', .eof⟩]⟩) = .ok c2 ⟨⟨l', .eof⟩, []⟩ ∧
+      c1.Same c2 :=
+  clauseLoop_trailing_semi hT fuel0 l0 l l' segs1 segs2 hne hs1 hsame hd fuel hfuel
+
+/-- the local step (proved outright): where a clause run ends at `End`, the same run followed by `;` `End` ends with
+the same slots — `trailing_semicolon_statement_partial`. Together with `trailing_semicolon` (clauses),
+`trailing_semicolon_no_clause` and `trailing_semicolon_after_statement` (`parseOp` looks for one optional `;` and
+returns the statement unchanged) this is the code's whole treatment of the semicolon.
+Not proved at the level of whole statements: for `pre` = `SELECT … FROM t` followed by clauses,
+`parseTokens (pre ++ [⟨l, ;⟩, ⟨l', End⟩])` and `parseTokens (pre ++ [⟨l, End⟩])` give the same tree. Missing: prefix
+determinism for the functions that run before the clause loop (projection loop, `FROM` table, file) — the expression
+parser, the clause loop and `parseOp` are covered. (The equation cannot hold for *every* `pre`: with
+`pre = SELECT x FROM t ; ;` the first vector is rejected with `TooManyTokens`, the second is accepted — the model
+evaluates so, and so does the code; CREATE TABLE needs its `;` anyway.) -/
+theorem trailing_semicolon_statement_partial (T : PrecTables) (fuel : Nat) (c : Clauses) (l l' : Loc) :
     clauseLoop T (fuel + 1) c { cur := ⟨l, .semi⟩, rest := [⟨l', .eof⟩] } = .ok c { cur := ⟨l', .eof⟩, rest := [] } := by
   simp [clauseLoop, clauseTurn, next]
 
@@ -172,7 +247,7 @@ example : lowerPlain (.call ⟨0, 0⟩ ['A', 'B', 'S'] [.column ⟨0, 4⟩ ['x']
     = lowerPlain (.call ⟨0, 0⟩ ['a', 'b', 's'] [.column ⟨0, 4⟩ ['x']] none) := rfl
 
 /-- three clauses in two orders: LIMIT, JOIN and LIMIT/JOIN swapped satisfy the hypotheses of
-`clause_order_invariance_partial` without any assumption -/
+`clause_order_invariance_of_clauses` without any assumption -/
 example (T : PrecTables) (l : Fin 13 → Loc) (l1 l2 e1 e2 : Loc) :
     ∃ c1 c2,
       clauseLoop T 2 {} (PSt.prependAll
@@ -189,7 +264,7 @@ example (T : PrecTables) (l : Fin 13 → Loc) (l1 l2 e1 e2 : Loc) :
         { cur := ⟨e2, .eof⟩, rest := [] }) = .ok c2 { cur := ⟨e2, .eof⟩, rest := [] } ∧ c1.Same c2 := by
   have hj := isClause_join T l false ['u'] ['f'] ['t'] ['k'] ['u'] ['k']
   have hl := isClause_limit T l1 l2 5
-  exact clause_order_invariance_partial T 0 _ _ rfl rfl
+  exact clause_order_invariance_of_clauses T 0 _ _ rfl rfl
     [(_, .limit (asUsize 5)), (_, .join _)] [(_, .join _), (_, .limit (asUsize 5))] (by simp)
     (by simp; exact List.Perm.swap _ _ _)
     (by intro p hp; simp at hp; rcases hp with rfl | rfl; exact hl; exact hj)
@@ -209,11 +284,34 @@ example (l1 l2 l3 l4 e1 e2 : Loc) :
   have hl : IsClause PrecTables.code 4 [⟨l3, .kw .limit⟩, ⟨l4, .int 5⟩] (.limit (asUsize 5)) :=
     ⟨(isClause_limit PrecTables.code l3 l4 5).head,
      fun fuel c tail _ hb hf => (isClause_limit PrecTables.code l3 l4 5).turn fuel c tail (by omega) hb hf⟩
-  exact clause_order_invariance_partial PrecTables.code 4 _ _ rfl rfl
+  exact clause_order_invariance_of_clauses PrecTables.code 4 _ _ rfl rfl
     [(_, .filter (.column ⟨0, 0⟩ ['x'])), (_, .limit (asUsize 5))] [(_, .limit (asUsize 5)), (_, .filter (.column ⟨0, 0⟩ ['x']))]
     (by simp) (by simp; exact List.Perm.swap _ _ _)
     (by intro p hp; simp at hp; rcases hp with rfl | rfl; exact hw; exact hl)
     (by intro p hp; simp at hp; rcases hp with rfl | rfl; exact hl; exact hw)
     (by simp [ClauseVal.kind]) 6 (by simp)
+
+/-- `WHERE a = 1 LIMIT 5` and `LIMIT 5 WHERE a = 1` (all tokens at arbitrary, different locations) satisfy the
+hypotheses of `clause_order_invariance` with the code's tables: the only thing used about the expression is one run of
+the model on `a = 1 End` -/
+example (l m : Fin 3 → Loc) (w1 w2 k1 k2 k3 k4 e1 e2 : Loc) :
+    ∃ c1 c2,
+      clauseLoop PrecTables.code 20 {} (PSt.prependAll
+        [⟨w1, .kw .where⟩ :: exampleBody l, [⟨k1, .kw .limit⟩, ⟨k2, .int 5⟩]] ⟨⟨e1, .eof⟩, []⟩) = .ok c1 ⟨⟨e1, .eof⟩, []⟩ ∧
+      clauseLoop PrecTables.code 20 {} (PSt.prependAll
+        [[⟨k3, .kw .limit⟩, ⟨k4, .int 5⟩], ⟨w2, .kw .where⟩ :: exampleBody m] ⟨⟨e2, .eof⟩, []⟩) = .ok c2 ⟨⟨e2, .eof⟩, []⟩ ∧
+      c1.Same c2 := by
+  let e : PExpr := .binop (l 1) (.single '=') (.column (l 1) ['a']) (.value (l 2) (.int 1))
+  refine clause_order_invariance PrecTables.code inertBoundary_code 10 _ _ rfl rfl
+    [(⟨w1, .kw .where⟩ :: exampleBody l, .filter e), ([⟨k1, .kw .limit⟩, ⟨k2, .int 5⟩], .limit (asUsize 5))]
+    [([⟨k3, .kw .limit⟩, ⟨k4, .int 5⟩], .limit (asUsize 5)), (⟨w2, .kw .where⟩ :: exampleBody m, .filter e)]
+    (by simp) ?_ ?_ (by simp [ClauseVal.kind]) 20 (by simp)
+  · intro p hp
+    simp only [List.mem_cons, List.mem_nil_iff, or_false] at hp
+    rcases hp with rfl | rfl
+    · exact ClauseSeg.filter (exampleBody l) (exampleBody_nb l) ⟨⟨e1, .eof⟩, []⟩ (by simp [Boundary]) e (exampleRun l e1)
+    · exact ClauseSeg.limit 5
+  · simp only [List.map_cons, List.map_nil, clauseKey, exampleBody]
+    exact List.Perm.swap _ _ _
 
 end Sqlgrep.Props.C20Parse
